@@ -49,8 +49,8 @@ theorem set_accessor_fresh {st st' : St} {c : Api} (hc : isSetAccessor c = true)
     ∀ g ∈ st'.gos.drop st.gos.length, ∀ a, goRoot g = some a → st.mem.length ≤ a := by
   cases c <;> simp only [isSetAccessor] at hc <;> try (exact absurd hc (by decide))
   all_goals (simp only [stepApi] at h; opt_cases h)
-  all_goals (simp only [St.withMem, St.pushGo, St.pushVal, List.drop_left, List.mem_singleton])
-  all_goals (intro g hg a ha; subst hg; simp only [goRoot, Option.some.injEq, reduceCtorEq] at ha)
+  all_goals (simp only [St.withMem, St.pushGo, List.drop_left, List.mem_singleton])
+  all_goals (intro g hg a ha; subst hg; simp only [goRoot, Option.some.injEq] at ha)
   all_goals (try subst ha)
   all_goals (first
     | exact Nat.le_refl _
